@@ -323,6 +323,8 @@ func (r *runner) run(ctx context.Context, isStream bool, input any, opts ...Opti
 				isSubGraph,
 				cm,
 				isStream,
+				nil,
+				nil,
 			)
 		}
 
@@ -354,16 +356,20 @@ func (r *runner) run(ctx context.Context, isStream bool, input any, opts ...Opti
 			}
 
 			if len(subGraphInterrupts)+len(interruptRerunNodes) > 0 {
+				// completedTasks have already been resolved into the channels and turned into nextTasks above:
+				// only the late completions are resolved now, and nextTasks are saved as pending inputs
 				return nil, r.handleInterruptWithSubGraphAndRerunNodes(
 					ctx,
 					interruptRerunNodes,
 					subGraphInterrupts,
 					interruptAfterNodes,
-					append(completedTasks, newCompletedTasks...),
+					newCompletedTasks,
 					checkPointID,
 					isSubGraph,
 					cm,
 					isStream,
+					nextTasks,
+					interruptBeforeNodes,
 				)
 			}
 
@@ -473,6 +479,8 @@ func (r *runner) handleInterruptWithSubGraphAndRerunNodes(
 	isSubGraph bool,
 	cm *channelManager,
 	isStream bool,
+	pendingTasks []*task, // tasks already created from earlier completions (their inputs have left the channels)
+	interruptBeforeNodes []string, // those of pendingTasks that are configured as interrupt-before
 ) error {
 	var rerunTasks, subgraphTasks, otherTasks []*task
 	skipPreHandler := map[string]bool{}
@@ -518,10 +526,14 @@ func (r *runner) handleInterruptWithSubGraphAndRerunNodes(
 		cp.State = state.state
 	}
 	intInfo := &InterruptInfo{
-		State:      cp.State,
-		AfterNodes: interruptAfterNodes,
-		RerunNodes: interruptRerunNodes,
-		SubGraphs:  make(map[string]*InterruptInfo),
+		State:       cp.State,
+		BeforeNodes: interruptBeforeNodes,
+		AfterNodes:  interruptAfterNodes,
+		RerunNodes:  interruptRerunNodes,
+		SubGraphs:   make(map[string]*InterruptInfo),
+	}
+	for _, t := range pendingTasks {
+		cp.Inputs[t.nodeKey] = t.input
 	}
 	for _, t := range subgraphTasks {
 		if isStream {
